@@ -1,6 +1,6 @@
 SPECIFICATION Spec
 CONSTANTS
-  NilSendEOF = FALSE
+  NilSend = "either"
   Caps = {0, 1, 2}
   Nils = {FALSE, TRUE}
   Depth = 8
